@@ -978,6 +978,10 @@ caption_command(vbi_decoder *vbi, struct caption *cc,
 				move_window(cc, ch, row1);
 
 			set_cursor(ch, 1, ch->row1 + ch->roll - 1);
+		} else if (ch->mode == MODE_TEXT) {
+			/* 47 CFR 15.119 (e)(1), EIA 608-B Section 7.4:
+			   In text mode the row is not used. */
+			set_cursor(ch, 1, ch->row);
 		} else
 			set_cursor(ch, 1, row);
 
@@ -1146,6 +1150,13 @@ caption_command(vbi_decoder *vbi, struct caption *cc,
 		case 10:	/* Text Restart			001 c10f  010 1010 */
 // not verified
 			ch = switch_channel(cc, ch, chan | 4);
+
+			/* EIA 608-B Section 7.4: Clears the text
+			   memory, cursor to the upper left. */
+			erase_memory(cc, ch, ch->hidden);
+			erase_memory(cc, ch, ch->hidden ^ 1);
+			clear(ch->pg + (ch->hidden ^ 1));
+
 			set_cursor(ch, 1, 0);
 			return;
 
